@@ -284,6 +284,12 @@ func checkTimerCancel(c *Ctx, prop string) {
 	hm := c.handlerModels()
 	rule := "a running suspicion is cancelled only by an accepted claim: whenever the alive or dead handler clears the timer of a suspect (non-local) record, it rewrites the record's state on that path"
 	c.Rule(rule)
+	// ... and while it runs nothing re-stamps the record: the timer revalidates against
+	// the state-change time captured when it was armed, so a rewrite of that time (or of the
+	// incarnation / state) by a later suspect claim would turn the timer into a no-op that
+	// nobody re-arms
+	c.mayRow(hm["suspect"], prop+"/invariant/no-restamp-while-suspected", "a suspect claim that finds a suspicion already running changes nothing in the record (the running timer revalidates against the state-change time it captured)",
+		classIn("W:State", "W:StateChange", "W:Incarnation", "TIMERDEL", "TIMERSET", "TIMERNEW"), func(g getf, e *gea.Effect) bool { return !isT(g, vTimer) })
 	for _, k := range []string{"alive", "dead"} {
 		h := hm[k]
 		for _, ex := range h.x.Exits {
